@@ -137,7 +137,7 @@ PROPS = {
     "C11": dict(
         level="exploration",
         rule="end to end through Server + StateMachine over the in-memory transport inside synctest bubbles: the exhaustive product of Origin-Host {absent,present} x Origin-Realm {absent,present} x Inband-Security-Id {absent,0,1} x every sequence of length 0..3 (thorough 0..4) over 13 application AVPs {Acct 3, Acct 4 (wrong type), Acct 999, Acct relay, Auth 4, Auth 3 (wrong type), Auth 999, Auth relay, VS{vendor,Auth 4}, VS{vendor,Auth 999}, VS{vendor,Acct 3}, VS{vendor only}, VS{Auth 999,Auth 4}} with the in-band AVP placed at varying positions, rotating 0/1/2 configured host addresses, IPv4/IPv6 local endpoint and zero identifiers; then random multisets up to 12. CER and CEA are built / parsed by the reference codec; the acceptance predicate and the shared application set are computed from the dictionary XML by the harness; a gated probe handler reads the connection metadata. distinct_nontrivial counts distinct (host, realm, in-band, number of application AVPs) classes.",
-        runs=dict(quick=[race("TestC11", 12)], thorough=[race("TestC11", 16, 6000)]),
+        runs=dict(quick=[race("TestC11", 12), race("TestC11Dict", 2)], thorough=[race("TestC11", 16, 6000), race("TestC11Dict", 2)]),
         floor=dict(quick=20000, thorough=300000),
         need_events=["accepted", "rejected"],
         assumptions=TRUST + ["the default dictionary is the local dictionary; a refused CER may carry any result code whose cause applies (5017 in-band security required, 5010 no common application, 5012 identity missing)"],
